@@ -236,7 +236,11 @@ def check(sc):
                 else:
                     for k in range(n):
                         w = np.datetime64(start + dt.timedelta(minutes=sc["sim"]["period"] * k))
-                        if abs((da[k] - w) / np.timedelta64(1, "us")) > 2:
+                        try:
+                            off_ = abs((np.datetime64(da[k], "us") - w) / np.timedelta64(1, "us")) > 2
+                        except (OverflowError, ValueError):
+                            off_ = True          # (an entry that cannot even be compared with the expected instant is wrong)
+                        if off_:
                             out.add("C18/datetimes", "entry %d is %s, expected %s" % (k, da[k], w))
                             break
     except Exception as x:
